@@ -13,6 +13,14 @@ Local Open Scope string_scope.
 Definition wf (p : package) : Prop :=
   forall f d, In f (p_files p) -> In d (f_decls f) -> no_inner_funcdecl d.
 
+(* ... and it follows from the boolean that the harness evaluates on every serialised package *)
+Theorem C01_wf_checked : forall p, x_wf_package p = true -> wf p.
+Proof.
+  intros p H f d Hf Hd. apply no_inner_funcdecl_b_sound.
+  change (x_wf_package p) with (forallb (fun f0 => forallb no_inner_funcdecl_b (f_decls f0)) (p_files p)) in H.
+  rewrite forallb_forall in H. specialize (H f Hf). rewrite forallb_forall in H. exact (H d Hd).
+Qed.
+
 (* (1) EXACTNESS. An IMM diagnostic (pos, code) is reported for package p iff, in some non-excluded file, some
    node n of some top-level declaration d is
      - an assignment `x.f = v` (IMM01 at x.f), `x.f[i] = v` (IMM04 at x.f[i]), a compound assignment `x.f op= v`
@@ -117,3 +125,4 @@ Print Assumptions C01_mutable_index.
 Print Assumptions C01_only_writes.
 Print Assumptions C01_walk.
 Print Assumptions C01_whole_analysis.
+Print Assumptions C01_wf_checked.
